@@ -69,6 +69,13 @@ fn problem(tree: &Tree, table: &Table, text: &str, st: Option<&mut Stats>) -> Op
         if let Some(p) = check_printed("DeepEx::parse", d.unparse(), &ex) {
             return Some(p);
         }
+        // the printed text must also denote what the printing expression itself computes
+        // (not only what the reference tree says)
+        if let (Ok(own), Ok(back)) = (observe(&d), reparse(d.unparse(), false)) {
+            if own.vars != back.vars || ac_norm(&own.val, &ex.comm) != ac_norm(&back.val, &ex.comm) {
+                return Some(format!("DeepEx::parse: the expression evaluates to {:?}, its printed text {:?} to {:?}", own.val, d.unparse(), back.val));
+            }
+        }
         if format!("{d}") != d.unparse() {
             return Some("Display of a deep expression differs from unparse".into());
         }
@@ -123,6 +130,17 @@ fn derived_problem(t1: &Tree, t2: &Tree, table: &Table, rng: &mut Rng) -> Option
         }
     }
     let r = catch(|| -> Option<String> {
+        // a unary operator applied directly to a parsed expression
+        let exu = expect(&Tree::un(uo, t1.clone()), table);
+        let fu = FX::parse(&text1).ok()?.operate_unary(table[uo].name).ok()?;
+        if let Some(p) = check_printed("flat operate_unary on a parsed expression", fu.unparse(), &exu) {
+            return Some(p);
+        }
+        if let (Ok(own), Ok(back)) = (observe(&fu), reparse(fu.unparse(), false)) {
+            if own.vars != back.vars || ac_norm(&own.val, &exu.comm) != ac_norm(&back.val, &exu.comm) {
+                return Some(format!("flat operate_unary: the expression evaluates to {:?}, its printed text {:?} to {:?}", own.val, fu.unparse(), back.val));
+            }
+        }
         for deep in [false, true] {
             let printed: String = if deep {
                 let (a, b) = (DX::parse(&text1).ok()?, DX::parse(&text2).ok()?);
@@ -287,7 +305,13 @@ pub fn run(ctx: &Ctx) -> i32 {
                 7..=8 => rng.range(11, 35),
                 _ => rng.range(36, 80),
             };
-            let tree = gen_tree(rng, &table, size, &gcfg);
+            let tree = if rng.chance(1, 8) {
+                st.bump("trees_long_single_level_chain");
+                let n = rng.range(15, 70);
+                gen_chain_tree(rng, &table, n, &gcfg)
+            } else {
+                gen_tree(rng, &table, size, &gcfg)
+            };
             let cfg = if rng.chance(1, 3) { RenderCfg::plain() } else { RenderCfg { call: rng.below(3), ..RenderCfg::random(rng) } };
             let text = render(&tree, &table, rng, &cfg);
             st.bump("cases");
